@@ -1841,8 +1841,8 @@ func (quietLogger) Debug(f string, v ...interface{}) {
 		fmt.Fprintf(os.Stderr, "nbio debug: "+f+"\n", v...)
 	}
 }
-func (quietLogger) Info(string, ...interface{})  {}
-func (quietLogger) Warn(string, ...interface{})  {}
+func (quietLogger) Info(string, ...interface{}) {}
+func (quietLogger) Warn(string, ...interface{}) {}
 func (quietLogger) Error(f string, v ...interface{}) {
 	if os.Getenv("HE2E_LOG") != "" {
 		fmt.Fprintf(os.Stderr, "nbio: "+f+"\n", v...)
